@@ -1584,6 +1584,8 @@ mismatch between values and axes""".format(inferred, self.values.shape)
         0 / year (4): 1900 to 1903
         array([1, 2, 3, 4])
         """
+        if name is not None and name in [ax.name for ax in self.axes if ax is not self.axes[axis]]:
+            raise ValueError("axis name already exist: {}".format(name))
         if not inplace: self = self.copy()
         self.axes[axis].set(values=values, inplace=True, name=name, **kwargs)
         if not inplace: return self
